@@ -35,6 +35,18 @@ theorem iter_stable {s : St W RN RL} {n m : Nat} (h : (iter wd cfg n s).halt ≠
   obtain ⟨d, rfl⟩ := Nat.exists_eq_add_of_le hnm
   rw [iter_add, iter_of_halted wd cfg h]
 
+/-- the early-exit loop the driver runs is `iter` -/
+theorem runTo_eq_iter (n : Nat) (s : St W RN RL) : runTo wd cfg n s = iter wd cfg n s := by
+  induction n generalizing s with
+  | zero => rfl
+  | succ n ih =>
+    unfold runTo
+    split
+    · rename_i h
+      have : s.halt ≠ none := by intro e; rw [e] at h; cases h
+      rw [iter_of_halted wd cfg this]
+    · rw [ih, iter]
+
 /-! ### phase frames -/
 
 /-- the solver phase touches only the world, the call counter and the call trace; it makes one call, or two when the
